@@ -467,7 +467,7 @@ Proof.
   intros Hin Hi Hn Hf. unfold Asm.process_line. cbv zeta.
   assert (E : label_name idx ++ [58] = 76 :: (print_dec idx ++ [58])) by reflexivity.
   rewrite E. rewrite skip_ws_cons by reflexivity. change (line_end (76 :: print_dec idx ++ [58])) with false. cbn iota.
-  rewrite starts_cons_ne by discriminate. rewrite <- E.
+  rewrite starts_cons_ne by discriminate. change (76 :: print_dec idx ++ [58]) with (label_name idx ++ [58]).
   rewrite parse_identifier_app; [|apply label_name_ident|discriminate|unfold lbl_buf, label_name_size; apply label_name_len, Hi|reflexivity].
   change (starts 58 (skip_ws [58])) with (Some (@nil byte)). cbn iota. rewrite Hin. cbn [negb].
   unfold add_label. destruct (N.leb_spec max_labels (lenN (a_labels st))); [lia|]. rewrite Hf.
